@@ -75,7 +75,8 @@ Definition faultable (a : act) : bool :=
 
 (** * Configuration *)
 
-Inductive aop : Type := Alloc (size : N) | Dealloc (size : N).
+(** Allocator operations as tallied by alloc.rs: alloc, dealloc, and realloc by its size difference. *)
+Inductive aop : Type := Alloc (size : N) | Dealloc (size : N) | Grow (size : N) | Shrink (size : N).
 
 Record config : Type := {
   nthreads : nat;                         (* T *)
@@ -398,6 +399,16 @@ Fixpoint summarise (l : list aop) : (N * N) * (N * N) :=
   | [] => ((0, 0), (0, 0))%N
   | Alloc s :: t => let '((ac, ab), d) := summarise t in ((ac + 1, ab + s), d)%N
   | Dealloc s :: t => let '(a, (dc, db)) := summarise t in (a, (dc + 1, db + s))%N
+  | _ :: t => summarise t
+  end.
+
+(** (count, bytes) of growing and of shrinking reallocations *)
+Fixpoint summarise_re (l : list aop) : (N * N) * (N * N) :=
+  match l with
+  | [] => ((0, 0), (0, 0))%N
+  | Grow s :: t => let '((gc, gb), d) := summarise_re t in ((gc + 1, gb + s), d)%N
+  | Shrink s :: t => let '(a, (sc, sb)) := summarise_re t in (a, (sc + 1, sb + s))%N
+  | _ :: t => summarise_re t
   end.
 
 (** * Observable events and trace replay (correspondence check) *)
